@@ -1,3 +1,4 @@
+import BobModel.Generated.ConstsC16
 /-
 Model of the directory assignment of Bob (property C16).
 
@@ -13,7 +14,8 @@ Model of the directory assignment of Bob (property C16).
 
 Strings are `List Char`; byte strings (keys, digests) are handled by the driver as their hex
 text, which commutes with concatenation.  `os.path.join` is `pjoin` (posixpath semantics),
-`str(num)` is `Nat.toDigits 10`.
+`str(num)` is `Nat.toDigits 10`.  The literals "workspace", "dev", "work" come from
+`Generated/ConstsC16.lean` (regenerated from the current source on every run).
 -/
 namespace BobDirs
 
@@ -130,7 +132,7 @@ def run (t : Table) : List (List (Key × Str)) → Option Table
 def fmtReady (t : Table) (key : Key) : Option Str := lookup t key
 
 /-- `LocalBuilder.makeRunnable` -/
-def runnable (p : Option Str) : Option Str := p.map (pjoin · "workspace".toList)
+def runnable (p : Option Str) : Option Str := p.map (pjoin · Consts.C16.workspaceName)
 
 /-- `.replace('::', os.sep)` -/
 def replaceColons : Str → Str
@@ -140,11 +142,11 @@ def replaceColons : Str → Str
 
 /-- `LocalBuilder.developNameFormatter`: `os.path.join("dev", step.getLabel(), name.replace('::', os.sep))` -/
 def developBase (label name : Str) : Str :=
-  pjoin (pjoin "dev".toList label) (replaceColons name)
+  pjoin (pjoin Consts.C16.devPrefix label) (replaceColons name)
 
 /-- `LocalBuilder.releaseNameFormatter`: `os.path.join("work", name.replace('::', os.sep), step.getLabel())` -/
 def releaseBase (label name : Str) : Str :=
-  pjoin (pjoin "work".toList (replaceColons name)) label
+  pjoin (pjoin Consts.C16.workPrefix (replaceColons name)) label
 
 /-! ### release mode -/
 
